@@ -71,7 +71,7 @@ PROPERTIES = {
         ],
     },
     "C11": {
-        "units": ["format_state", "bar_draw", "c07_position"],
+        "units": ["format_state", "bar_draw", "c07_position", "c09_estimator"],
         "level": "proof",
         "explanation": "ProgressStyle::{format_state, push_line, current_tick_str, get_tick_str, get_final_tick_str} and WideElement::expand extracted from src/style.rs and verified: the frame produced by format_state equals, line for line, a rendering function written from the crate's documented key table (key_text: pos/len families through Display of u64 / HumanCount / HumanBytes / DecimalBytes / BinaryBytes of the position and of the length-or-position; percent families from fraction()*100 with precision 0 / 3; elapsed / eta / duration through FormattedDuration and alternate HumanDuration of the getters; per_sec families from per_sec(); msg / prefix from the tab-expanded message / prefix; spinner from tick and finished status; unknown keys empty), a custom key shadows the built-in and is written with the state of this very draw; each key has its own named obligation. The getters are evaluated on the one &ProgressState passed in, i.e. at the instant of the draw. Trackers are ticked (bar_draw) and reset (c07_position) together with the bar.",
         "level_text": "Deductive proof (Verus) for every template, state, width and key: the loop over template parts carries an inductive invariant against the fold `run`, the 28-way key dispatch is checked key by key.",
@@ -253,6 +253,7 @@ FALLBACK = {
                     ("multi_finish", ["C04", "C02", "C19", "C03"], "finished bars of a MultiProgress (one-row and wrapping) stay, in order, for every finish and drop order of three bars"),
                     ("io_fail_multi", ["C18"], "MultiProgress calls under a failing terminal"),
                     ("multi_bottom", ["C03", "C02"], "see draw_to_term"),
+                    ("multi_move", ["C02"], "see pins_multi"),
                     ("io_fail_state", ["C18"], "see bar_draw")],
     "c07_position": [("bar_hidden", ["C06", "C07"], "getters after operation histories, hidden vs visible"),
                      ("pos_arith", ["C07", "C04", "C05"], "inc / dec wrap, inc_length / dec_length saturate, finish variants vs position: 5 x 5 boundary values"),
@@ -267,19 +268,22 @@ FALLBACK = {
                  ("bar_frames", ["C05"], "see bar_draw"), ("bar_hidden", ["C06"], "see bar_draw"), ("bar_reuse", ["C04"], "see bar_draw")],
     "pins_multi": [("multi_removed", ["C06"], "a bar removed from its MultiProgress (unfinished / finished / abandoned / cleared) performs no terminal operation on six later calls"),
                    ("multi_order", ["C02"], "see multi_state"), ("multi_finish", ["C04", "C02", "C03"], "see multi_state"), ("multi_logs", ["C03", "C02"], "see multi_state"),
-                   ("multi_bottom", ["C03", "C02"], "see draw_to_term")],
+                   ("multi_bottom", ["C03", "C02"], "see draw_to_term"),
+                   ("multi_move", ["C02"], "a bar handed to a second MultiProgress (add / insert / insert_after, drawn or not) leaves the first and shows up once in the second: 6 histories")],
     "pins_iter": [("iter_adaptors", ["C17"], "see c17_adaptors")],
-    "c09_estimator": [("bar_cells", ["C13"], "see c13_format_bar (ProgressState::fraction feeds the bar geometry)"), ("est_laws", ["C09"], "finite / non-negative / bounded / steady-exact / reset-forgets on the real f64 estimator: 5 rates x 6 gap patterns x 40 samples")],
+    "c09_estimator": [("time_keys", ["C11"], "see format_state"), ("bar_cells", ["C13"], "see c13_format_bar (ProgressState::fraction feeds the bar geometry)"), ("est_laws", ["C09"], "finite / non-negative / bounded / steady-exact / reset-forgets on the real f64 estimator: 5 rates x 6 gap patterns x 40 samples")],
     "c14_style": [("style_build", ["C14"], "builders reject or produce a renderable style (family of tick/progress strings)")],
     "c10_template": [("template_fields", ["C10", "C12"], "width / alignment / truncation options of a placeholder reach the renderer as written: 14 templates"),
                      ("template_total", ["C10"], "parser totality on generated strings up to length 6 over the grammar alphabet"),
                      ("template_order", ["C10"], "literal order / one line per template line on generated templates")],
-    "format_state": [("tracker_ticks", ["C11"], "see bar_draw"), ("render_keys", ["C11"], "every documented key against the getters through the public formatters, 9 position/length pairs x 3 statuses x 4 tick counts; custom key shadowing"),
+    "format_state": [("tracker_ticks", ["C11"], "see bar_draw"),
+                     ("time_keys", ["C11"], "elapsed / eta / duration keys against the formatted getters for known / unknown / zero length, running and finished bars, 0 s .. 25 h of elapsed time: 32 states"), ("render_keys", ["C11"], "every documented key against the getters through the public formatters, 9 position/length pairs x 3 statuses x 4 tick counts; custom key shadowing"),
                      ("render_wide", ["C12", "C13", "C11"], "lines with wide_bar / wide_msg fill exactly the terminal width (4 widths x 7 templates)"),
                      ("render_lines", ["C10", "C11", "C01"], "frame line structure for 8 templates x 9 messages with embedded / trailing newlines")],
     "c12_padding": [("pad_field ascii", ["C12"], "padding / truncation on printable ASCII, widths 0..12"),
                     ("pad_no_panic", ["C12", "C14"], "the field formatter never panics: 13 texts (double-width, combining, emoji, ANSI) x widths 0..10 x 3 alignments x truncate")],
-    "c15_formatters": [("human_count", ["C15"], "digit grouping on boundary values"),
+    "c15_formatters": [("byte_formatters", ["C15"], "HumanBytes / BinaryBytes / DecimalBytes against the 1024 / 1000 prefix families around every threshold up to u64::MAX: 225 values"),
+                       ("human_count", ["C15"], "digit grouping on boundary values"),
                        ("formatted_duration", ["C15"], "HH:MM:SS on boundary durations"),
                        ("human_float", ["C15"], "HumanFloatCount shape on boundary values"),
                        ("human_duration", ["C15"], "HumanDuration rounding rule, unit switch and monotonicity at every unit boundary k*U, (k+0.5)*U, switch points, each +- 1 ms (444 durations up to Duration::MAX)")],
